@@ -34,4 +34,7 @@ struct CRC16Base { unsigned long crc_; };
    its data pointer; raw_bit_size_ == 8 * size() is the class invariant established by the constructor */
 struct BitStream { const byte *input_; size_t raw_bit_size_, first_, stride_; };
 struct opt_byte { _Bool has; byte val; };
+
+/* geometry.h: struct Geometry { int cylinders; int heads; sector_count_type sectors; optional<Encoding> encoding; } */
+struct Geometry { int cylinders; int heads; sector_count_type sectors; };
 #endif
